@@ -7,6 +7,7 @@ from gen import classes
 class C08(common.SpecCheck):
     pid = "C08"
     title = "Emission-order nondeterminism is benign"
+    QUICK = {"nseeds": 8, "specs": 250, "round": 250, "budget": 0}
     rule = ("N compile nodes that differ only in interpreter hash seed compile the same partitioned specification "
             "(classes S, O, A-partitioned, K, T; metrics specs are covered by C11's replicas) in lock step. Invariants: "
             "(a) inside each node, parse-and-compile twice more -> byte-identical text; (b) every distinct text is closed; "
